@@ -71,6 +71,8 @@ MENU = [
     ("gosub-in-for", "FOR I=1 TO 2:GOSUB 100:NEXT", None, set()),
     ("on-goto-negint", "X=-B:ON INT(X)+4 GOTO {t},{u},{t},{u}", None, set()),
     ("for-negint", "X=-A:FOR I=INT(X) TO 0:{m}:NEXT", None, set()),
+    ("for-var-read-before", "Z=K*2:FOR K=1 TO 2:{m}:NEXT K:Z=Z+K", None, set()),
+    ("for-var-read-before2", "Z=K+J:FOR K=1 TO 2:FOR J=1 TO 2:{m}:NEXT J,K:Z=Z+K", None, set()),
     ("end", "END", None, set()),
     ("stop", "STOP", None, set()),
     ("if-end", "IF A=1 THEN END", None, set()),
